@@ -7,6 +7,7 @@ import (
 	"time"
 
 	"verif/ref/agwtnc"
+	"verif/sim/pipe"
 )
 
 // verdicts collects violations, one per signature and run.
@@ -108,17 +109,20 @@ func (r *run) check(cutFired bool) (nonTrivial bool) {
 		ports[pt] = true
 	}
 	remotes := map[string]bool{p.Remote: true, foreignCall: true}
+	// blocking: TCP writes of the host take simulated time (write pacing), so two
+	// goroutines writing frames can interleave a header and a data field
+	blocking := len(p.Link.AB.WriteDelayUs) > 0
 	if sn.FramingErr != "" {
 		d := "framing-error"
-		if r.closerStarted {
-			d += "/concurrent-close"
+		if blocking {
+			d += "/blocking-writes"
 		}
 		v.add("host-frames", d, "the byte stream received by the TNC stopped being a sequence of AGWPE frames: %s", sn.FramingErr)
 	}
 	if sn.TruncErr != "" && !cutFired && !sn.TNCClosed {
 		d := "truncated-at-eof"
-		if r.closerStarted {
-			d += "/concurrent-close"
+		if blocking {
+			d += "/blocking-writes"
 		}
 		v.add("host-frames", d, "%s", sn.TruncErr)
 	}
@@ -246,9 +250,23 @@ func (r *run) check(cutFired bool) (nonTrivial bool) {
 	}
 
 	// ---- unexpected failures on a healthy, cooperative TNC ------------------
+	// The library's own time-outs (3 s version, 30 s poll, 1 min flush/close) are
+	// implementation constants; on a link whose backlog can exceed a second a
+	// time-out says nothing about correctness, so it is not demanded there.
+	hostBytes, tncBytes := 40*agwtnc.HeaderLen, 40*agwtnc.HeaderLen
+	for _, w := range r.writes {
+		hostBytes += len(w.Data) + 4*agwtnc.HeaderLen
+	}
+	for _, f := range p.Script.Frames {
+		tncBytes += clamp(f, 1, 2048) + agwtnc.HeaderLen
+	}
+	slowLink := worstTransit(p.Link.AB, hostBytes) > time.Second || worstTransit(p.Link.BA, tncBytes) > time.Second
 	if cooperative {
 		for _, o := range r.ops {
 			if !o.Done || o.Panicked || o.Err == "" || linkDownBy(o.End) {
+				continue
+			}
+			if slowLink && (strings.Contains(o.Err, "timeout") || strings.Contains(o.Err, "deadline exceeded")) {
 				continue
 			}
 			closing := (connCloseCalled && connCloseAt <= o.End) || (tncCloseCalled && tncCloseAt <= o.End)
@@ -318,6 +336,9 @@ func (r *run) check(cutFired bool) (nonTrivial bool) {
 			if len(got) < len(want) && bytes.HasPrefix(want, got) {
 				detail = "missing-data"
 			}
+			if blocking {
+				detail += "/blocking-writes"
+			}
 			v.add("write-stream", detail, "the TNC received %d payload bytes in %d 'D' frames for the connection; the Write calls that returned success wrote %d bytes (first difference at offset %d)", len(got), lenRecv(mc), len(want), firstDiff(got, want))
 		}
 	}
@@ -368,8 +389,9 @@ func (r *run) check(cutFired bool) (nonTrivial bool) {
 			if o.Name != "close" {
 				continue
 			}
-			pulled := tncCloseCalled && tncCloseAt <= o.End // the application closed the port or the TNC under the Close call
-			if o.Done && !o.Panicked && o.ConnState == "connected" && discAt == 0 && !linkDownBy(o.End) && !pulled && len(mc.HostDiscAt) == 0 {
+			pulled := tncCloseCalled && tncCloseAt <= o.End     // the application closed the port or the TNC under the Close call
+			garbled := sn.FramingErr != "" || sn.TruncErr != "" // reported by the host-frames clause
+			if o.Done && !o.Panicked && o.ConnState == "connected" && discAt == 0 && !linkDownBy(o.End) && !pulled && !garbled && len(mc.HostDiscAt) == 0 {
 				v.add("exchange", "close-without-d", "Close (%v..%v, result %q) on an established connection did not send a 'd' frame to the TNC", o.Start, o.End, o.Err)
 			}
 			break // only the first Close call
@@ -428,6 +450,24 @@ func (r *run) check(cutFired bool) (nonTrivial bool) {
 type wr struct {
 	data     []byte
 	optional bool
+}
+
+// worstTransit bounds the time the link direction needs to deliver n bytes.
+func worstTransit(d pipe.DirPlan, n int) time.Duration {
+	lat := maxOf(d.LatUs, 100)
+	if len(d.LatUs) == 0 {
+		lat = 100
+	}
+	seg := 0
+	for _, v := range d.Seg {
+		if v > 0 && (seg == 0 || v < seg) {
+			seg = v
+		}
+	}
+	if seg == 0 {
+		seg = agwtnc.HeaderLen // whole writes: at least a header each
+	}
+	return time.Duration(lat) * time.Microsecond * time.Duration(n/seg+1)
 }
 
 func isLocal(m map[string]int, c string) bool { _, ok := m[c]; return ok }
@@ -500,9 +540,12 @@ func classifyRead(rd []byte, frames [][]byte) string {
 	if m >= len(rd) {
 		return "wrong-bytes"
 	}
+	const pre = "~FOREIGN:"
+	if i := bytes.Index(rd[m:], []byte(pre)); i > 0 {
+		m += i // payload bytes never contain '~': a marker anywhere is a foreign frame
+	}
 	if rd[m] == '~' {
 		rest := rd[m:]
-		const pre = "~FOREIGN:"
 		if bytes.HasPrefix(rest, []byte(pre)) {
 			if e := bytes.IndexByte(rest[len(pre):], '~'); e > 0 {
 				return "foreign-delivered-" + string(rest[len(pre):len(pre)+e])
